@@ -795,7 +795,7 @@ fn check_live_reads(rep: &Reporter, seed: &Seed, vals_for: &dyn Fn(u8) -> Vec<u8
 }
 
 pub fn run_c09(rep: &Reporter, thorough: bool) -> Value {
-    let seeds = gen_seeds(if thorough { 60 } else { 10 }, if thorough { 5 } else { 4 });
+    let seeds = gen_seeds(if thorough { 40 } else { 10 }, if thorough { 5 } else { 4 });
     let st = ImgStats::new();
     let vals_for = move |orig: u8| -> Vec<u8> {
         if thorough {
@@ -822,12 +822,18 @@ pub fn run_c09(rep: &Reporter, thorough: bool) -> Value {
     }
     let idx = AtomicUsize::new(0);
     let threads = 2 * std::thread::available_parallelism().map(|n| n.get()).unwrap_or(8);
+    let deadline = std::time::Instant::now() + std::time::Duration::from_secs(crate::checks::cap_mult() * if thorough { 2400 } else { 90 });
+    let skipped = AtomicU64::new(0);
     std::thread::scope(|sc| {
         for _ in 0..threads {
             sc.spawn(|| loop {
                 let i = idx.fetch_add(1, Ordering::Relaxed);
                 if i >= work.len() {
                     break;
+                }
+                if std::time::Instant::now() > deadline {
+                    skipped.fetch_add(1, Ordering::Relaxed);
+                    continue;
                 }
                 let (si, fi, pos, v) = work[i];
                 check_mutation(rep, &seeds[si], fi, pos, v, &st);
@@ -857,7 +863,8 @@ pub fn run_c09(rep: &Reporter, thorough: bool) -> Value {
         "states": (work.len() as u64 + missing + live).max(1),
         "transitions": st.opens.load(Ordering::Relaxed).max(1),
         "traces_validated_against_impl": st.opens.load(Ordering::Relaxed),
-        "exhaustive": true,
+        "exhaustive": skipped.load(Ordering::Relaxed) == 0,
+        "mutations_skipped_by_wall_cap": skipped.load(Ordering::Relaxed),
         "samples": seeds.iter().take(4).map(seed_json).collect::<Vec<_>>(),
         "seed_images": seeds.len(),
         "seed_layouts": seeds.iter().map(|s| s.sig.clone()).collect::<Vec<_>>(),
